@@ -157,8 +157,8 @@ PROPS = {
     "C06": {
         "level": "exploration",
         "variants": {
-            "quick": [("rel", {}), ("dbg", {})],
-            "thorough": [("rel", {"timeout": 5 * 3600}), ("dbg", {"timeout": 5 * 3600})],
+            "quick": [("rel", {}), ("dbg", {}), ("dbg0", {})],
+            "thorough": [("rel", {"timeout": 5 * 3600}), ("dbg", {"timeout": 5 * 3600}), ("dbg0", {"timeout": 5 * 3600})],
         },
         "floors": ["cases_ending_in_err", "cases_ending_in_ok", "read_calls"],
         "rule": "case = (reader in {LZMAReader x3 constructors, LZMA2Reader, XZReader single/multi, LZIPReader, LZIPReaderMT, "
@@ -620,7 +620,7 @@ def check_c14(p, prop, tier, seed, cfg):
 def setup(p):
     os.makedirs(p.build, exist_ok=True)
     ok = True
-    for variant in ["rel", "dbg", "asan", "tsan", "miri"]:
+    for variant in ["rel", "dbg", "dbg0", "asan", "tsan", "miri"]:
         if vlib.build(p, variant) is None:
             ok = False
     for name, feats in TX_VARIANTS:
